@@ -7,10 +7,11 @@ use crate::coqw::*;
 use crate::emit::{self, Tables, VALIDATOR_NAMES};
 use crate::filegen::*;
 use crate::imp::{self, Outcome, RunSpec};
+use crate::mainargs::{self, MainArgs};
 use crate::prng::Rng;
 use serde_json::json;
 
-pub const HEADER: &str = "From BW Require Import SpecRun.";
+pub const HEADER: &str = "From BW Require Import SpecRun Main.";
 
 const LANGS_M: [&str; 4] = ["bash", "ruby", "js", "python"];
 const LINES: [&str; 10] = ["a", "b", "c", "a", "10", "2", "k9", "zz", "", "b"];
@@ -157,6 +158,18 @@ pub fn rfiles_coq(spec: &RunSpec, allow_all: bool) -> Vec<String> {
         .collect()
 }
 
+/// the files of a run as `mfile`s of Main.v: nothing typed that globset would have to judge
+pub fn mfiles_coq(spec: &RunSpec) -> Vec<String> {
+    rfiles_coq(spec, false)
+        .into_iter()
+        .map(|r| {
+            // "(mkrfile p t [spans] true false false)" -> "(mkmfile p t [spans] true true false false false)"
+            let body = r.strip_prefix("(mkrfile ").and_then(|x| x.strip_suffix(" true false false)")).expect("rfile shape");
+            format!("(mkmfile {body} true true false false false)")
+        })
+        .collect()
+}
+
 pub fn vnums(names: &[String]) -> String {
     clist(names, |n| emit::code_num(n).to_string())
 }
@@ -249,17 +262,37 @@ pub fn generate_c14(rng: &mut Rng, idx: usize, _tier: Tier) -> CaseOut {
     }
     let mut tags = vec![format!("mode:{}", if enable { "enable" } else { "disable" }), format!("subset-size:{}", mask.count_ones())];
     if idx % 16 == 15 {
-        // rejected flag combinations, through the real binary
-        let (args, what): (Vec<String>, &str) = if rng.chance(1, 2) {
-            (vec!["-e".into(), "line-count".into(), "-d".into(), "keep-sorted".into()], "both")
-        } else {
-            (vec![if rng.chance(1, 2) { "-d" } else { "-e" }.into(), ["keep_sorted", "linecount", "Keep-Sorted", "all", ""][rng.below(5)].into()], "unknown")
+        // rejected flag combinations, through the real binary, against the model of main.rs / flags.rs
+        let mut m = MainArgs::default();
+        let what = match rng.below(4) {
+            0 => {
+                m.en_raw.push("line-count".into());
+                m.dis_raw.push("keep-sorted".into());
+                "both"
+            }
+            1 => {
+                // the same validator on both sides is still both flags
+                let v = VALIDATOR_NAMES[rng.below(7)].to_string();
+                m.en_raw.push(v.clone());
+                m.dis_raw.push(v);
+                "both-same"
+            }
+            _ => {
+                let bad = ["keep_sorted", "linecount", "Keep-Sorted", "all", "", " keep-sorted", "check-lua ", "affects,keep-sorted"][rng.below(8)].to_string();
+                if rng.chance(1, 2) { m.dis_raw.push(bad) } else { m.en_raw.push(bad) }
+                if rng.chance(1, 2) {
+                    m.dis_raw.insert(0, "check-ai".into());
+                }
+                "unknown"
+            }
         };
+        let args = m.argv(rng);
         let c = cli::run(&CliRun { files: base.files.clone(), args: args.clone(), ..Default::default() });
         let rejected = c.code.map(|x| x != 0).unwrap_or(false) && !c.timed_out && !c.stderr.contains("panicked") && !c.stderr.trim_start().starts_with('{');
         tags.push(format!("rejected:{what}"));
+        tags.push(mainargs::outcome_tag(&c, false));
         return CaseOut {
-            coq: format!("(verdict true {} false)", cbool(rejected)),
+            coq: format!("(check_main {} [{}] {} [] {} {})", m.coq(&None, true), mfiles_coq(&base).join("; "), repo.tables.coq(), mainargs::mobs_coq(&c, false), cbool(rejected)),
             json: json!({"input": spec_json(&base), "args": args, "cli": {"exit": c.code, "stderr": c.stderr}}),
             key: format!("{:?}|{}", args, base.files[0].1),
             nontrivial: true,
@@ -273,25 +306,31 @@ pub fn generate_c14(rng: &mut Rng, idx: usize, _tier: Tier) -> CaseOut {
         flagged.disabled = subset.clone();
     }
     let o0 = imp::run(&base);
-    // the flagged run goes through the real binary every fourth case
-    let o1 = if idx % 4 == 1 {
-        let c = cli::run(&CliRun { files: flagged.files.clone(), args: cli_args(&flagged), ..Default::default() });
-        tags.push("via:cli".into());
-        cli::interpret_run(&c).0
-    } else {
-        imp::run(&flagged).run
-    };
-    if enable && subset.is_empty() {
-        // no -e given at all = unrestricted
-    }
     let mut uniq = subset.clone();
     uniq.sort();
     uniq.dedup();
-    let coq = format!(
-        "(check_flag {} {} {} {} {} {})",
-        rcase_coq(&base, &repo.tables), rcase_coq(&flagged, &repo.tables), emit::obs(&o0.run), emit::obs(&o1),
-        cbool(enable && !subset.is_empty()), vnums(&uniq)
-    );
+    // the flagged run goes through the real binary every fourth case, and is then compared with the
+    // model of main.rs / flags.rs (the in-process runner hands the flag sets to detect_validators itself)
+    let (coq, o1) = if idx % 4 == 1 {
+        let m = MainArgs { dis_raw: flagged.disabled.clone(), en_raw: flagged.enabled.clone(), ..Default::default() };
+        let args = m.argv(rng);
+        let c = cli::run(&CliRun { files: flagged.files.clone(), args, ..Default::default() });
+        tags.push("via:cli".into());
+        let coq = format!(
+            "(check_flag_main {} {} {} [{}] {} {} {} {})",
+            rcase_coq(&base, &repo.tables), emit::obs(&o0.run), m.coq(&None, true), mfiles_coq(&flagged).join("; "), repo.tables.coq(),
+            mainargs::mobs_coq(&c, false), cbool(enable && !subset.is_empty()), vnums(&uniq)
+        );
+        (coq, cli::interpret_run(&c).0)
+    } else {
+        let o1 = imp::run(&flagged).run;
+        let coq = format!(
+            "(check_flag {} {} {} {} {} {})",
+            rcase_coq(&base, &repo.tables), rcase_coq(&flagged, &repo.tables), emit::obs(&o0.run), emit::obs(&o1),
+            cbool(enable && !subset.is_empty()), vnums(&uniq)
+        );
+        (coq, o1)
+    };
     let nontrivial = matches!(&o0.run, Outcome::Ok((ds, _)) if !ds.is_empty());
     if let (Outcome::Ok((a, _)), Outcome::Ok((b, _))) = (&o0.run, &o1) {
         tags.push(format!("removed:{}", (a.len() - b.len().min(a.len())).min(5)));
